@@ -36,14 +36,78 @@ BATCH = 20000
 
 
 # ------------------------------------------------------------ implementation
-def impl_send(parts):
-    io = IO(ScriptSocket(), ('h', 25))
-    DataSender(*parts).send(io)
-    return io.send_buffer.getvalue()
+# One DataSender object is asked to emit SEVERAL times (the number and order of calls on one
+# object is a dimension of the property: measure-then-send, send to two connections, retry):
+#   'send' = sender.send(io) on a fresh real IO over a recording socket, then io.flush_send():
+#            what the socket got, in order;   'iter' = b''.join(sender).
+EMISSION_ORDERS = [('send', 'send'), ('iter', 'send'), ('send', 'iter', 'send'), ('send', 'send', 'send'), ('iter', 'iter')]
+_emit_counter = [0]
+
+
+def exc_text(e):
+    return '%s: %s' % (type(e).__name__, str(e)[:120])
+
+
+def emit(parts, order):
+    """-> one entry per emission: the wire bytes, or ('EXC', text) when the code under test raised"""
+    outs = []
+    try:
+        sender = DataSender(*parts)
+    except Exception as e:
+        return [('EXC', 'DataSender(): ' + exc_text(e))] * len(order)
+    for how in order:
+        try:
+            if how == 'send':
+                sock = ScriptSocket()
+                io = IO(sock, ('h', 25))
+                sender.send(io)
+                io.flush_send()
+                outs.append(sock.sent)
+            else:
+                outs.append(b''.join(sender))
+        except Exception as e:
+            outs.append(('EXC', how + ': ' + exc_text(e)))
+    return outs
+
+
+def judge_emissions(ctx, case, parts, order, outs, judged):
+    """every emission of the object must be the same complete wire string as the first one
+    (whose round trip the caller judges); judged = the split is inside the property's guard"""
+    case = dict(case, emission_order=list(order))
+    if not isinstance(outs[0], bytes):
+        ctx.fail('c05:sender-raises', case, 'emission 1 (%s) of DataSender raised %s' % (order[0], outs[0][1]))
+        return
+    for i in range(1, len(outs)):
+        if outs[i] == outs[0]:
+            continue
+        if not isinstance(outs[i], bytes):
+            ctx.fail('c05:sender-raises', dict(case, emission=i + 1), 'emission %d (%s) of the same DataSender object raised %s' % (i + 1, order[i], outs[i][1]))
+            return
+        if not judged:
+            ctx.mismatch('emissions', dict(case, emission=i + 1), (len(outs[i]), outs[i][-40:]), (len(outs[0]), outs[0][-40:]))
+            return
+        back = impl_recv(b'', cap([outs[i] + b'QUIT\r\n']))
+        m = b''.join(parts)
+        ctx.fail('c05:second-emission-differs', dict(case, emission=i + 1),
+                 'emission %d (%s) of the same DataSender object wrote %d bytes %r, emission 1 (%s) wrote %d bytes %r; read back by DataReader the later one '
+                 'gives %s, the message is %d bytes %r' % (i + 1, order[i], len(outs[i]), outs[i][:60], order[0], len(outs[0]), outs[0][:60],
+                                                       sb_summary(back), len(m), m[:60]))
+        return
+
+
+def impl_send(parts, ctx=None, case=None, judged=True):
+    """wire of the first emission (None when the sender raised); with ctx: the object is re-used and every emission judged"""
+    order = EMISSION_ORDERS[_emit_counter[0] % len(EMISSION_ORDERS)] if ctx is not None else ('send',)
+    _emit_counter[0] += 1
+    outs = emit(parts, order)
+    if ctx is not None:
+        ctx.count('emissions:' + '+'.join(order))
+        judge_emissions(ctx, case if case is not None else dict(stream='emissions', parts=list(parts)), parts, order, outs, judged)
+    return outs[0] if isinstance(outs[0], bytes) else None
 
 
 def impl_recv(buf, chunks, max_size=None):
-    """-> (0, data, unread bytes, recv calls) | (1,) ConnectionLost | (2, unread bytes) MessageTooBig"""
+    """-> (0, data, unread bytes, recv calls) | (1,) ConnectionLost | (2, unread bytes) MessageTooBig | (3, text) anything else raised"""
     sock = ScriptSocket(chunks)
     io = IO(sock, ('h', 25))
     io.recv_buffer = buf
@@ -53,6 +117,8 @@ def impl_recv(buf, chunks, max_size=None):
         return (1,)
     except MessageTooBig:
         return (2, io.recv_buffer + sock.unread())
+    except Exception as e:
+        return (3, exc_text(e))
     return (0, data, io.recv_buffer + sock.unread(), sock.recv_calls)
 
 
@@ -246,11 +312,13 @@ def run_exhaustive(ctx, maxlen, cut_all_upto, three_upto):
             m_wires.extend(ctx.model.batch('c05_send', [p for (_, p) in all_splits[i:i + BATCH]]))
         per_msg = {}
         for (m, parts), mw in zip(all_splits, m_wires):
-            wire = impl_send(parts)
+            ok = guard(parts)
+            wire = impl_send(parts, ctx, dict(stream='exhaustive', message=m, parts=parts), ok)
             ctx.evaluations += 1
+            if wire is None:
+                continue
             if wire != B(mw):
                 ctx.mismatch('send', dict(message=m, parts=parts), wire, B(mw))
-            ok = guard(parts)
             ctx.count('split:' + ('one-part' if len(parts) == 1 else 'line-boundary' if line_split(parts) else
                                   'other-admissible' if ok else 'dot-part-midline(not judged)'))
             d = per_msg.setdefault(m, {})
@@ -259,7 +327,7 @@ def run_exhaustive(ctx, maxlen, cut_all_upto, three_upto):
         for mi, m in enumerate(msgs):
             # beyond length 7 each message gets two of the four trailing strings (alternating)
             trailers = TRAILERS if L <= 7 else TRAILERS[mi % 2::2]
-            for (wire, ok), parts in per_msg[m].items():
+            for (wire, ok), parts in per_msg.get(m, {}).items():
                 for t in (trailers if ok else [b'Q']):
                     data = wire + t
                     nt = nontrivial_msg(m, wire, t)
@@ -365,11 +433,13 @@ def run_random(ctx, count):
         cases.append((m, gen_split(rng, m)))
     m_wires = ctx.model.batch('c05_send', [p for (_, p) in cases])
     for (m, parts), mw in zip(cases, m_wires):
-        wire = impl_send(parts)
+        ok = guard(parts)
+        wire = impl_send(parts, ctx, dict(stream='random', message=m, parts=parts), ok)
         ctx.evaluations += 1
+        if wire is None:
+            continue
         if wire != B(mw):
             ctx.mismatch('send', dict(message=m, parts=parts), wire, B(mw))
-        ok = guard(parts)
         ctx.count('random-split:' + ('one-part' if len(parts) == 1 else 'line-boundary' if line_split(parts) else
                                      'other-admissible' if ok else 'dot-part-midline(not judged)'))
         ctx.count('random-len:' + ('0' if not m else '<64' if len(m) < 64 else '<1024' if len(m) < 1024 else '<=4096'))
@@ -465,7 +535,7 @@ def sb_diff(got, want):
     """human-size description of got != want (reader outcomes)"""
     if got[0] != 0:
         return 'DataReader.recv() raised %s; expected %d bytes of message and %r left unread' % (
-            {1: 'ConnectionLost (no end-of-data line seen)', 2: 'MessageTooBig'}.get(got[0], got[0]), len(want[1]), want[2][:60])
+            {1: 'ConnectionLost (no end-of-data line seen)', 2: 'MessageTooBig'}.get(got[0], got[-1]), len(want[1]), want[2][:60])
     what = []
     if got[1] != want[1]:
         i = next((j for j in range(min(len(got[1]), len(want[1]))) if got[1][j] != want[1][j]), min(len(got[1]), len(want[1])))
@@ -552,10 +622,12 @@ def run_size_boundary(ctx):
         send_cases = []
         for sp in splits:
             parts = sb_parts(m, k, sp)
-            wire = impl_send(parts)
+            ok = guard(parts)
+            wire = impl_send(parts, ctx, dict(d, stream='size-boundary', split=sp), ok)
             n_send += 1
             ctx.evaluations += 1
-            ok = guard(parts)
+            if wire is None:
+                continue
             if not ok:
                 ctx.count('size-boundary-split:dot-part-midline(not judged)')
                 continue
@@ -614,6 +686,177 @@ def run_size_boundary(ctx):
              % (n_msgs, SB_L, SB_DELTA, len(SB_PROBES), n_send, n_recv, SB_MODEL_MAX_L, n_model))
 
 
+# ------------------------------------------------------------ re-use of one sender object
+def run_reuse(ctx, count):
+    """the number and order of calls on ONE DataSender object: every emission is read back by the real reader
+    and compared with the model's `emissions` (theorem C05_sender_output_is_a_function_of_the_parts)"""
+    rng = ctx.rng
+    cases = []
+    for L in range(0, 4):
+        for tup in itertools.product(ALPHA, repeat=L):
+            m = bytes(tup)
+            for parts in splits_of(m, False):
+                if guard(parts):
+                    cases.append((m, parts))
+    for _ in range(count):
+        m = gen_message(rng)
+        parts = gen_split(rng, m)
+        if guard(parts):
+            cases.append((m[:1500], parts if len(m) <= 1500 else [m[:1500]]))
+    orders = [tuple(rng.choice(['send', 'iter']) for _ in range(rng.choice([2, 2, 3, 4]))) for _ in cases]
+    mouts = []
+    for i in range(0, len(cases), 5000):
+        mouts.extend(ctx.model.batch('c05_emissions', [[parts, len(o)] for (_, parts), o in zip(cases[i:i + 5000], orders[i:i + 5000])]))
+    t = b'QUIT\r\n'
+    for (m, parts), order, mo in zip(cases, orders, mouts):
+        outs = emit(parts, order)
+        case = dict(stream='reuse', message=m, parts=parts)
+        ctx.evaluated(('reuse', m, tuple(parts), order), nontrivial=True)
+        ctx.count('reuse:%d-emissions' % len(order))
+        if [o if isinstance(o, bytes) else None for o in outs] != [B(x) for x in mo]:
+            ctx.mismatch('emissions', dict(case, emission_order=list(order)), [(len(o), o[-30:]) if isinstance(o, bytes) else o for o in outs],
+                         [(len(B(x)), B(x)[-30:]) for x in mo])
+        judge_emissions(ctx, case, parts, order, outs, True)
+        for i, w in enumerate(outs):
+            if not isinstance(w, bytes):
+                continue
+            got = impl_recv(b'', cap([w + t]))
+            want = (0, expected(m), t, 1 if len(w) + len(t) <= 4096 else need_calls(b'', cap([w + t]), len(w)))
+            if got != want:
+                ctx.fail('c05:second-emission-differs' if i else 'c05:content-altered', dict(case, emission_order=list(order), emission=i + 1),
+                         'emission %d (%s) of one DataSender object, followed by %r and read back: %s' % (i + 1, order[i], t, sb_diff(got, want)))
+                break
+    ctx.sample(dict(kind='reuse', cases=len(cases), note='one DataSender object emitted 2-4 times (send to a fresh IO / iterate), every emission read back'), cap=12)
+
+
+# ------------------------------------------------------------ big parts through the real IO path
+# A piece handed to IO.buffered_send can be as large as a whole part (DataSender._process_part yields a part
+# unsplit up to the next LF "."), so piece size is a dimension too.  Bodies are built so that ONE piece has
+# exactly N bytes; they are sent as several part layouts through DataSender.send(io) + io.flush_send() (and
+# through Client.send_data) into a recording socket.  Cases are descriptions; nothing big is stored.
+BIG_HDR = b'From: sender@example.com\r\nSubject: big part\r\n\r\n'
+BIG_TRL = b'-- \r\ntrailer part\r\n'
+BIG_LAYOUTS = ['body', 'hdr+body', 'body+trl', 'hdr+body+trl', 'empty+body', 'hdr+hdr+body']
+BIG_SHAPES = ['whole', 'lfdot', 'dotfirst']
+
+
+def big_parts(d):
+    N, f = d['N'], d['filler']
+    if d['shape'] == 'whole':
+        body = sb_filler(f, N)                                   # one piece of N bytes, no final newline
+    elif d['shape'] == 'lfdot':
+        body = sb_filler(f, N - 2) + b'\n.' + b'sig\r\n'          # first piece N bytes (up to and including LF "."), then a stuffed dot
+    else:
+        body = b'.' + sb_filler(f, N - 1)                        # part begins with a dot: pieces "." and N bytes
+    return {'body': [body], 'hdr+body': [BIG_HDR, body], 'body+trl': [body, BIG_TRL], 'hdr+body+trl': [BIG_HDR, body, BIG_TRL],
+            'empty+body': [b'', body], 'hdr+hdr+body': [BIG_HDR[:26], BIG_HDR[26:], body]}[d['layout']]
+
+
+def ref_wire(m):
+    return STUFF_RE.sub(b'..', m) + (b'.\r\n' if (m == b'' or m.endswith(b'\r\n')) else b'\r\n.\r\n')
+
+
+def client_send_data(parts):
+    """the wire of slimta.smtp.client.Client.send_data(*parts) (no PIPELINING: flushed at once, reply scripted)"""
+    from slimta.smtp.client import Client
+    sock = ScriptSocket([b'250 2.0.0 Ok\r\n'])
+    try:
+        c = Client(sock, ('h', 25))
+        c.send_data(*parts)
+        return sock.sent
+    except Exception as e:
+        return ('EXC', 'Client.send_data: ' + exc_text(e))
+
+
+def big_emit(d):
+    parts = big_parts(d)
+    if d['path'] == 'Client.send_data':
+        return parts, [client_send_data(parts)]
+    return parts, emit(parts, tuple(d['order']))
+
+
+def big_judge(ctx, d, parts, outs, state):
+    """-> None if fine, else (key, what).  A wire equal to the reference stuffing of the concatenation is accepted for
+    LF-free fillers (reading 1 MiB without a LF takes the real reader seconds: `.*\\n` is quadratic) and read back
+    for CRLF-line fillers; a wire that differs is always read back: the verdict is the round trip, not the comparison."""
+    m = b''.join(parts)
+    ref = ref_wire(m)
+    t = b'QUIT\r\n'
+    for i, w in enumerate(outs):
+        if not isinstance(w, bytes):
+            return 'c05:sender-raises', 'emission %d raised %s' % (i + 1, w[1])
+        same = (w == ref)
+        if same and (d['filler'] != 'crlf' or i > 0):
+            ctx.count('big-part:wire-equals-reference(not read back)')
+            continue
+        lf_free = d['filler'] != 'crlf'
+        if lf_free and state['slow_readbacks'] >= 3:
+            got = ref_read(w + t)
+            got = (1,) if got is None else (0, got[0], got[1], None)
+            how = 'the reference reader'
+        else:
+            if lf_free:
+                state['slow_readbacks'] += 1
+            chunks = cap([w + t]) if not lf_free else [(w + t)[j:j + 1000] for j in range(0, len(w) + len(t), 1000)]
+            got = impl_recv(b'', chunks)
+            how = 'DataReader (%d-byte reads)' % (1000 if lf_free else 4096)
+        ctx.count('big-part:read-back')
+        ok = got[0] == 0 and got[1] == expected(m) and got[2] == t
+        if ok:
+            if not same:
+                ctx.note('big-part: a wire different from the reference stuffing still round-trips (not a violation): %r' % (d,))
+            continue
+        if got[0] == 0 and len(w) == len(ref) and not w.startswith(ref[:24]) and w.find(ref[:24]) > 0:
+            base = 'pieces-out-of-order'
+        elif got[0] != 0:
+            base = 'reader-raises'
+        elif len(got[1]) < len(expected(m)) and expected(m).startswith(got[1]):
+            base = 'early-end-of-data'
+        elif got[1] != expected(m):
+            base = 'content-altered'
+        else:
+            base = 'trailing-bytes-altered'
+        want = (0, expected(m), t, got[3] if got[0] == 0 else None)
+        return ('c05:big-part-' + base,
+                'parts of lengths %r (one piece of %d bytes) sent through %s, emission %d: the socket got %d bytes starting %r (reference stuffing: %d bytes starting %r); '
+                'read back by %s: %s' % ([len(x) for x in parts], d['N'], d['path'], i + 1, len(w), w[:40], len(ref), ref[:40], how, sb_diff(got, want)))
+    return None
+
+
+def run_big_parts(ctx):
+    quick = ctx.quick
+    sizes = [262143, 262144, 262145, 1048575, 1048576, 1048577] if quick else [131072, 262143, 262144, 262145, 524288, 1048575, 1048576, 1048577, 2097152]
+    state = dict(slow_readbacks=0)
+    n = 0
+    k = 0
+    for N in sizes:
+        for shape in BIG_SHAPES:
+            for f in ('run', 'crlf'):
+                for layout in BIG_LAYOUTS:
+                    k += 1
+                    order = [('send',), ('send', 'send'), ('iter', 'send')][k % 3] if N <= 1048577 else ('send',)
+                    ds = [dict(stream='big-part', N=N, shape=shape, filler=f, layout=layout, order=list(order), path='DataSender.send')]
+                    if layout in ('hdr+body', 'body') and shape == 'whole':
+                        ds.append(dict(stream='big-part', N=N, shape=shape, filler=f, layout=layout, order=['send'], path='Client.send_data'))
+                    for d in ds:
+                        parts, outs = big_emit(d)
+                        n += 1
+                        ctx.evaluated(('big-part', repr(sorted(d.items()))), nontrivial=True)
+                        ctx.count('big-part:N=%d' % N)
+                        ctx.count('big-part:layout=' + layout)
+                        ctx.count('big-part:path=' + d['path'])
+                        r = big_judge(ctx, d, parts, outs, state)
+                        if r is None and len(outs) > 1 and any(o != outs[0] for o in outs[1:]):
+                            r = ('c05:second-emission-differs', 'emissions of one DataSender object differ: lengths %r' % [len(o) if isinstance(o, bytes) else o for o in outs])
+                        if r is not None:
+                            ctx.fail(r[0], d, r[1])
+    ctx.sample(dict(kind='big-part', piece_sizes=sizes, shapes=BIG_SHAPES, layouts=BIG_LAYOUTS, cases=n), cap=12)
+    ctx.note('big-part stream: %d cases, one piece of exactly N bytes (N in %r) handed to IO.buffered_send, fillers run / crlf, shapes %r, part layouts %r, through '
+             'DataSender.send(io)+io.flush_send() into a recording socket (one object emitted up to twice) and through Client.send_data; model not evaluated (size); '
+             'judged by the round trip: CRLF-line bodies are read back by the real DataReader, LF-free bodies are accepted when the socket got exactly the reference '
+             'stuffing of the concatenation in order (reading them back costs the real reader seconds) and read back when it did not' % (n, sizes, BIG_SHAPES, BIG_LAYOUTS))
+
+
 def run_maxsize(ctx, count):
     """model<->code only (never judged): the MessageTooBig path of recv_piece"""
     rng = ctx.rng
@@ -651,21 +894,58 @@ def run(ctx):
         run_exhaustive(ctx, maxlen=6, cut_all_upto=5, three_upto=3)
         run_raw(ctx, 5)
         run_random(ctx, 300)
+        run_reuse(ctx, 150)
         run_size_boundary(ctx)
+        run_big_parts(ctx)
         pass  # the size limit (MessageTooBig) is modelled and judged by C09 (reader after the D13 repair)
     else:
         run_exhaustive(ctx, maxlen=8, cut_all_upto=6, three_upto=5)
         run_raw(ctx, 6)
         run_random(ctx, 6000)
+        run_reuse(ctx, 3000)
         run_size_boundary(ctx)
+        run_big_parts(ctx)
         pass  # see C09
     ctx.note('max_size is None in every judged case; the MessageTooBig path is compared model<->code only (property C09 judges it)')
     ctx.note('a sender part that starts with "." in the middle of a line gets that dot doubled by DataSender._process_part '
              '(e.g. parts (b"a", b".b") arrive as b"a..b\\r\\n"); such splits are outside the property (splits at line boundaries) and are only compared model<->code')
 
 
+def print_emissions(parts, order):
+    m = b''.join(parts)
+    ref = ref_wire(m)
+    print('parts               : lengths %r, first bytes %r' % ([len(x) for x in parts], [x[:24] for x in parts]))
+    print('reference wire      : %d bytes starting %r' % (len(ref), ref[:48]))
+    for i, w in enumerate(emit(parts, tuple(order))):
+        if not isinstance(w, bytes):
+            print('emission %d (%-4s)    : raised %s' % (i + 1, order[i], w[1]))
+            continue
+        back = impl_recv(b'', cap([w + b'QUIT\r\n'])) if len(w) <= 300000 or b'\n' in w[:4096] else ('not read back',)
+        print('emission %d (%-4s)    : %d bytes starting %r - %s; read back: %s' % (
+            i + 1, order[i], len(w), w[:48], 'equals the reference' if w == ref else 'DIFFERS from the reference',
+            'the message, QUIT left unread' if back[:3] == (0, expected(m), b'QUIT\r\n') else (sb_summary(back) if back[0] in (0, 1, 2, 3) else back[0])))
+
+
+def replay_big_part(ctx, c):
+    d = dict(stream='big-part', N=c['N'], shape=c['shape'], filler=c['filler'], layout=c['layout'], order=list(c['order']), path=c['path'])
+    parts, outs = big_emit(d)
+    print('case                : %r' % d)
+    r = big_judge(ctx, d, parts, outs, dict(slow_readbacks=0))
+    if d['path'] == 'Client.send_data':
+        print('parts               : lengths %r' % [len(x) for x in parts])
+        print('Client.send_data    : %s' % ('%d bytes starting %r' % (len(outs[0]), outs[0][:48]) if isinstance(outs[0], bytes) else outs[0][1]))
+    else:
+        print_emissions(parts, d['order'])
+    print('verdict             : %s' % ('round trip holds' if r is None else '%s - %s' % r))
+    return 0
+
+
 def replay_size_boundary(ctx, c, unhex):
     """rebuilds the message, the parts and the segmentation from the description"""
+    if 'seg' not in c:
+        m, k = sb_message(dict(L=c['L'], delta=c['delta'], probe=c['probe'], filler=c['filler']))
+        print_emissions(sb_parts(m, k, c.get('split')), c.get('emission_order', ['send', 'send']))
+        return 0
     d = dict(L=c['L'], delta=c['delta'], probe=c['probe'], filler=c['filler'])
     m, k = sb_message(d)
     t = unhex(c.get('trailing', b'')) or b''
@@ -700,6 +980,11 @@ def replay(ctx, case):
         return bytes.fromhex(x['hex']) if isinstance(x, dict) else x
     if c.get('stream') == 'size-boundary':
         return replay_size_boundary(ctx, c, unhex)
+    if c.get('stream') == 'big-part':
+        return replay_big_part(ctx, c)
+    if 'emission_order' in c and 'chunks' not in c:
+        print_emissions([unhex(x) for x in c['parts']], c['emission_order'])
+        return 0
     buf = unhex(c.get('recv_buffer', b'')) or b''
     chunks = [unhex(x) for x in c.get('chunks', [])]
     if 'parts' in c:
